@@ -108,6 +108,9 @@ class C17(SamplerProp):
                 cl.append(('terminated_atom_offers_nothing', not left))
             else:
                 cl.append(('terminal_descriptors_withdrawn', all(x not in terms for x in (left or []))))
+        # the node 'bonding' lists after growth are exactly: written - used, terminal descriptors withdrawn where documented
+        from .c16 import wellformed_clauses
+        cl += [c for c in wellformed_clauses(shape, o) if c[0] == 'descriptor_bookkeeping_exact']
         return cl
 
     def sample(self, shape, cinp):
